@@ -22,11 +22,19 @@ pub type RSQVector512 = RSQVector<RSSupportPlain<512>>;
 
 /// The generic `S` is the data structure used to provide rank/select
 /// support at the level of blocks.
-#[derive(Default, Clone, PartialEq, Debug, Serialize, Deserialize)]
+#[derive(Clone, PartialEq, Debug, Serialize, Deserialize)]
 pub struct RSQVector<S> {
     qv: QVector,
     rs_support: S,
     n_occs_smaller: [usize; 5], // for each symbol c, store the number of occurrences of in qv of symbols smaller than c. We store 5 (instead of 4) counters so we can use them to compute also the number of occurrences of each symbol without branches.
+}
+
+impl<S: RSSupport> Default for RSQVector<S> {
+    /// Creates an empty quad vector. The rank/select support is built as for any other
+    /// vector (one superblock, sentinel samples), so that every query is valid on it.
+    fn default() -> Self {
+        Self::from(QVector::default())
+    }
 }
 
 impl<S> RSQVector<S> {
